@@ -239,6 +239,16 @@ def rank(p):
 
 # --------------------------------------------------------------------------------------------------
 def run(ctx):
+    try:
+        _run(ctx)
+    finally:
+        if ctx.repo != "/repo":
+            # scratch copies are transient: do not let their build output pile up under .build
+            for suf in ("", "-nightly"):
+                shutil.rmtree(os.path.join(common.BUILD, "probe-target-" + repo_tag(ctx.repo) + suf), ignore_errors=True)
+
+
+def _run(ctx):
     ctx.assumptions = ASSUME
     ctx.notes.append("lifetime half PARTIAL: M7 models lifetime elision + signature-level outlives, not the borrow checker; "
                      "auto-trait half is a complete decision over the extracted impls (class abstraction lemma)")
@@ -378,7 +388,7 @@ def nightly_eyepatch(ctx, drv, keys):
     if rlib is None:
         ctx.notes.append("nightly build of the crate with unstable_dropck_eyepatch failed (tooling, not a finding): " + cout[-300:])
         return []
-    ps = probegen.payload_probes(True, dropck_model=True)
+    ps = probegen.payload_probes(True, eyepatch=True)
     for p in ps:
         p["id"] = "nightly-" + p["id"]
         p["family"] = "nightly-" + p["family"]
@@ -418,7 +428,7 @@ def fill_coverage(ctx, probes, skipped, configs, mach):
     for p in live:
         for c in p["codes"]:
             codes[c or "no-code(lifetime)"] = codes.get(c or "no-code(lifetime)", 0) + 1
-    want = ["auto-Arc-send-sn-w", "esc-outer-Arc-borrow_arc", "cb-outer-ThinArc-with_arc_mut", "payload-drop-Arc", "ctl-ab-get-outlives-borrow"]
+    want = ["auto-Arc-send-sn-w", "esc-outer-Arc-borrow_arc", "cb-outer-ThinArc-with_arc_mut", "payload-drop-Arc-droppy", "ctl-ab-get-outlives-borrow"]
     samples = []
     for p in probes:
         if any(p["id"] == w or (w.endswith("-w") and p["id"].startswith(w)) for w in want) and len(samples) < 8:
@@ -455,12 +465,16 @@ def replay(ctx, path):
     if not m or not d:
         print("replay file names no program (a `theorem` replay): re-running the full check instead")
         return run(ctx)
-    rlib, deps, cout = build_rlib(ctx)
+    nightly = "rustc +nightly" in text
+    if nightly:
+        rlib, deps, cout = build_rlib(ctx, toolchain="nightly", features=FEATURES + ",unstable_dropck_eyepatch", suffix="-nightly")
+    else:
+        rlib, deps, cout = build_rlib(ctx)
     if rlib is None:
         raise RuntimeError("the crate at %s does not build:\n%s" % (ctx.repo, cout[-2000:]))
     p = {"id": "replay", "family": "replay", "src": m.group(1) + "\n", "expect": d.group(1), "eclass": d.group(2) or "auto",
          "queries": [], "predict": {"const": d.group(1)}, "triple": ("replay", os.path.basename(path), "replay"), "needs": [], "strict": True}
-    run_probes(ctx, [p], rlib, deps, "/bin/true")
+    run_probes(ctx, [p], rlib, deps, "/bin/true", toolchain="nightly" if nightly else None)
     ctx.coverage.update({"programs": 1, "evaluations": 1, "distinct_nontrivial": 1, "rule": "replay of one probe program",
                          "samples": [{"rustc": p["rustc"], "codes": p["codes"], "property_demands": p["expect"]}]})
     print("replay: property demands %s, rustc says %s %s" % (p["expect"], p["rustc"], [c for c in p["codes"] if c]))
